@@ -68,11 +68,16 @@ def service_options(rng):
                           is_privacy=rng.getrandbits(1), reserved=bitarray("00"))
 
 
+def addr24(rng):
+    """a 24-bit address: mostly random, but also the values a careless `x or default` / `if x` treats as absent or special"""
+    return rng.choice([0, 1, (1 << 24) - 1, 0xFFFFFC]) if rng.random() < 0.2 else rng.randrange(1 << 24)
+
+
 def full_lc_voice(rng, source_address, group=True, other=None):
     from okdmr.dmrlib.etsi.layer2.elements.feature_set_ids import FeatureSetIDs
     from okdmr.dmrlib.etsi.layer2.elements.flcos import FLCOs
     from okdmr.dmrlib.etsi.layer2.pdu.full_link_control import FullLinkControl
-    other = rng.randrange(1, 1 << 24) if other is None else other
+    other = addr24(rng) if other is None else other
     kw = dict(protect_flag=rng.getrandbits(1), fid=FeatureSetIDs.StandardizedFID, crc=rbits(rng, 24),
               service_options=service_options(rng), source_address=source_address)
     if group:
@@ -132,7 +137,7 @@ def data_header(rng, fmt, btf=0, a=False, sap=None, llid_source=1, llid_destinat
     from okdmr.dmrlib.etsi.layer2.pdu.data_header import DataHeader
     from okdmr.dmrlib.etsi.layer3.elements.udt_option_flag import UDTOptionFlag
     sap = sap or rng.choice([s for s in SAPIdentifier if s != SAPIdentifier.Reserved])
-    dst = rng.randrange(1, 1 << 24) if llid_destination is None else llid_destination
+    dst = addr24(rng) if llid_destination is None else llid_destination
     common = dict(sap_identifier=sap, llid_destination=dst, llid_source=llid_source,
                   is_response_requested=bool(a))
     if fmt == "C":
@@ -168,7 +173,7 @@ def preamble_csbk(rng, btf, source_address=1, target_address=None):
     from okdmr.dmrlib.etsi.layer2.elements.csbk_opcodes import CsbkOpcodes
     from okdmr.dmrlib.etsi.layer2.pdu.csbk import CSBK
     return CSBK(csbko=CsbkOpcodes.PreambleCSBK, last_block=True, source_address=source_address,
-                target_address=rng.randrange(1, 1 << 24) if target_address is None else target_address,
+                target_address=addr24(rng) if target_address is None else target_address,
                 blocks_to_follow=btf, csbk_content_follows_preambles=rng.getrandbits(1),
                 target_address_is_individual=rng.getrandbits(1))
 
@@ -183,17 +188,17 @@ def other_csbk(rng, source_address=1):
     from okdmr.dmrlib.etsi.layer3.elements.source_type import SourceType
     k = rng.randrange(4)
     if k == 0:
-        return CSBK(csbko=CsbkOpcodes.BSOutboundActivation, bs_address=rng.randrange(1, 1 << 24),
+        return CSBK(csbko=CsbkOpcodes.BSOutboundActivation, bs_address=addr24(rng),
                     source_address=source_address)
     if k == 1:
         return CSBK(csbko=CsbkOpcodes.UnitToUnitVoiceServiceRequest, service_options=service_options(rng),
-                    target_address=rng.randrange(1, 1 << 24), source_address=source_address)
+                    target_address=addr24(rng), source_address=source_address)
     if k == 2:
         return CSBK(csbko=CsbkOpcodes.UnitToUnitVoiceServiceAnswerResponse, service_options=service_options(rng),
-                    answer_response=rng.choice(list(AnswerResponse)), target_address=rng.randrange(1, 1 << 24), source_address=source_address)
+                    answer_response=rng.choice(list(AnswerResponse)), target_address=addr24(rng), source_address=source_address)
     return CSBK(csbko=CsbkOpcodes.NegativeAcknowledgementResponse, additional_information_field=rng.choice(list(AdditionalInformationField)),
                 source_type=rng.choice(list(SourceType)), service_type=rng.choice([CsbkOpcodes.UnitToUnitVoiceServiceRequest, CsbkOpcodes.BSOutboundActivation]),
-                reason_code=rng.choice(list(ReasonCode)), target_address=rng.randrange(1, 1 << 24), source_address=source_address)
+                reason_code=rng.choice(list(ReasonCode)), target_address=addr24(rng), source_address=source_address)
 
 
 def marker(n):
